@@ -32,6 +32,7 @@ func genC06Case(t *rapid.T) SSOCase {
 	c.Noise = rapid.IntRange(0, 2).Draw(t, "noise") == 0
 	c.SP = rapid.IntRange(0, len(spec.SPs)-1).Draw(t, "sp")
 	c.Req = genValidAuthn(t, spec, c.SP, host)
+	maybePassive(t, &c.Req)
 	c.Style = genXMLStyle(t)
 	binding := rapid.SampledFrom([]string{"post", "redirect"}).Draw(t, "transport")
 	c.Tr = genTransport(t, binding)
